@@ -39,6 +39,39 @@ def normal_sites(body, pred):
     return [c for c in body.calls_to(pred) if not body.is_cleanup(c.bb)]
 
 
+def field_option_edges(body, field):
+    """(some_edges, none_edges): CFG edges on which the Option-typed field `field` is known to be Some / None, from
+    `x.field.is_some()` / `is_none()` tests and from discriminant reads (`if let Some(v) = x.field.as_ref()`, `match x.field`)."""
+    from ..rules import _switches_on_local, switch_target
+    some, none = [], []
+    for c in body.calls():
+        if body.is_cleanup(c.bb) or c.name not in ("std::option::Option::is_some", "std::option::Option::is_none") or not c.args:
+            continue
+        if not any(field in o.path for o in origins(body, c.args[0])):
+            continue
+        for t in bool_tests(body, c.dest["l"]):
+            tr, fl = [(t.bb, x) for x in t.ok], [(t.bb, x) for x in t.err]
+            if c.name.endswith("is_some"):
+                some += tr
+                none += fl
+            else:
+                some += fl
+                none += tr
+    for bb in range(body.n):
+        if body.is_cleanup(bb):
+            continue
+        for st in body.blocks[bb]["stmts"]:
+            if st["k"] == "assign" and st["rv"]["k"] == "discr" and not st["pl"]["p"] and "Option<" in body.local_ty(st["rv"]["pl"]["l"]) and \
+                    any(field in o.path for o in origins(body, {"k": "copy", "pl": st["rv"]["pl"]})):
+                for sb in _switches_on_local(body, st["pl"]["l"]):
+                    t = body.term(sb)
+                    n_t, s_t = switch_target(t, 0), switch_target(t, 1)
+                    if n_t != s_t:
+                        none.append((sb, n_t))
+                        some.append((sb, s_t))
+    return some, none
+
+
 def unlocked_closures(P, L, body):
     """(site, closure body) for closures handed to unlocked_fair in this body."""
     out = []
@@ -1138,7 +1171,9 @@ def grd2_retention(P, R, L, rule="GRD-2"):
     R.analysed(cb)
     # the drop flag: a const-assigned bool that steers add_entry
     ae = normal_sites(cb, "tables::table_builder::TableBuilder::add_entry")
-    flags = [l for l in cb.flag_locals() if cb.local_name(l) is not None]
+    # the decision variable: a named bool (assigned constants, or — written as one boolean expression — constants on the
+    # short-circuit paths and the result of is_base_level_for_key on the last one)
+    flags = [l for l in range(len(cb.locals)) if cb.local_ty(l) == "bool" and cb.local_name(l) is not None]
     drop_flag = None
     for l in flags:
         tests = _bt(cb, l)
@@ -1154,8 +1189,17 @@ def grd2_retention(P, R, L, rule="GRD-2"):
         if cb.is_cleanup(bb):
             continue
         for st in cb.blocks[bb]["stmts"]:
-            if st["k"] == "assign" and st["pl"]["l"] == drop_flag and not st["pl"]["p"] and st["rv"]["ops"][0].get("val") == "1":
-                stores.append((bb, st["line"]))
+            if st["k"] == "assign" and st["pl"]["l"] == drop_flag and not st["pl"]["p"]:
+                rv = st["rv"]
+                if rv["k"] == "use" and rv["ops"][0]["k"] == "const":
+                    if rv["ops"][0].get("val") == "1":
+                        stores.append((bb, st["line"], "const"))
+                else:
+                    stores.append((bb, st["line"], "other"))
+        t_ = cb.term(bb)
+        if t_["k"] == "call" and not t_["dest"]["p"] and t_["dest"]["l"] == drop_flag:
+            nm_ = strip_generics(t_.get("resolved") or t_.get("callee") or "")
+            stores.append((bb, t_.get("line"), "base" if nm_ == IS_BASE_LEVEL else "other"))
     snap = origin_pred_call(SMALLEST_SNAPSHOT)
     seqk = origin_pred_call(SEQ_OF_KEY2)
     # last_sequence_for_key: a local with a constant def and a def from get_sequence_number
@@ -1184,10 +1228,14 @@ def grd2_retention(P, R, L, rule="GRD-2"):
         for t in _bt(cb, c.dest["l"]):
             e_base += t.ok_edges()
     kinds = {"hidden": 0, "tombstone": 0}
-    for (bb, line) in stores:
-        hidden = bool(e_hidden) and cb.must_pass(bb, through_edges=e_hidden)
-        tomb = bool(e_delete) and bool(e_seq_le) and bool(e_base) and cb.must_pass(bb, through_edges=e_delete) and \
-            cb.must_pass(bb, through_edges=e_seq_le) and cb.must_pass(bb, through_edges=e_base)
+    for (bb, line, how) in stores:
+        hidden = how == "const" and bool(e_hidden) and cb.must_pass(bb, through_edges=e_hidden)
+        if how == "base":
+            # `.. || (is_delete && seq <= smallest && is_base_level(..))`: the flag takes the value of the base-level test itself
+            tomb = bool(e_delete) and bool(e_seq_le) and cb.must_pass(bb, through_edges=e_delete) and cb.must_pass(bb, through_edges=e_seq_le)
+        else:
+            tomb = how == "const" and bool(e_delete) and bool(e_seq_le) and bool(e_base) and cb.must_pass(bb, through_edges=e_delete) and \
+                cb.must_pass(bb, through_edges=e_seq_le) and cb.must_pass(bb, through_edges=e_base)
         k = "hidden" if hidden else "tombstone" if tomb else None
         if k:
             kinds[k] += 1
@@ -1215,7 +1263,7 @@ def grd2_retention(P, R, L, rule="GRD-2"):
         if upd and nxt and all(cb.must_pass(n.bb, through_nodes=upd, start=_loop_head(cb, n.bb)) for n in nxt):
             ok_update = True
         # the update comes after the decision (the decision must see the previous entry's sequence)
-        for (bb, line) in stores:
+        for (bb, line, _how) in stores:
             if any(bb in cb.reachable(u, stop_nodes=[n.bb for n in nxt]) and bb != u for u in upd):
                 ok_update = False
     R.check(rule, cb.path + "|last-sequence-bookkeeping", ok_reset and ok_update, where(cb),
@@ -1254,18 +1302,25 @@ def ord7_smallest_snapshot(P, R, L, rule="ORD-7"):
     seen_kinds = set()
     for n in news:
         os_ = origins(ct, n.args[1], transparent=T2)
-        names = {o.name for o in os_ if o.kind == "call"}
-        if names == {"snapshots::SnapshotList::oldest"}:
-            ok = ct.must_pass(n.bb, through_edges=e_nonempty)
-            seen_kinds.add("oldest")
-            req = "the oldest live snapshot bounds what may be dropped (non-empty snapshot list)"
-        elif names == {PREV_SEQ}:
-            ok = ct.must_pass(n.bb, through_edges=e_empty)
-            seen_kinds.add("last")
-            req = "without snapshots the last published sequence bounds what may be dropped"
-        else:
-            ok = False
-            req = "smallest snapshot comes from SnapshotList::oldest (snapshots live) or get_prev_sequence_number (none)"
+        # each source of the value is judged where it is computed (the value may be selected into a local first)
+        ok, req_parts, names = bool(os_), [], set()
+        for o in os_:
+            if o.kind != "call" or o.site is None:
+                ok = False
+                names.add("%s:%s" % (o.kind, o.name))
+                continue
+            names.add(o.name)
+            if o.name == "snapshots::SnapshotList::oldest":
+                seen_kinds.add("oldest")
+                if not ct.must_pass(o.site.bb, through_edges=e_nonempty):
+                    ok = False
+            elif o.name == PREV_SEQ:
+                seen_kinds.add("last")
+                if not ct.must_pass(o.site.bb, through_edges=e_empty):
+                    ok = False
+            else:
+                ok = False
+        req = "the smallest snapshot is SnapshotList::oldest() where snapshots are live and get_prev_sequence_number() where there are none"
         R.check(rule, COMPACT_TABLES + "|smallest-snapshot-source", ok, n.where(), req, "origins %s" % sorted(names))
     R.check(rule, COMPACT_TABLES + "|both-sources", seen_kinds == {"oldest", "last"}, where(ct), "both cases are handled", str(sorted(seen_kinds)))
     for n in news:
@@ -2802,8 +2857,15 @@ def grd14_manual_inputs(P, R, L, rule="GRD-14", parts=("level0",)):
         lens_ok, det = True, []
         for t in tr:
             os_ = origins(b, t.args[1])
-            good = bool(os_) and all(o.kind == "binop" and o.name in ("Add", "AddWithOverflow", "AddUnchecked") and o.extra and any(
-                x["k"] == "const" and (x.get("val") or "0").isdigit() and int(x["val"]) >= 1 for x in o.extra[1]["rv"]["ops"]) for o in os_)
+            vec_roots = roots(b, t.args[0])
+            # a length carried in an Option local (`Some(index + 1)` ... `if let Some(n)`) shows up with its wrappers
+            os_ = [o for o in os_ if not (o.kind == "agg" and (o.name or "") in ("std::option::Option::Some", "std::option::Option::None"))]
+            good = bool(os_) and all(
+                (o.kind == "binop" and o.name in ("Add", "AddWithOverflow", "AddUnchecked") and o.extra and any(
+                    x["k"] == "const" and (x.get("val") or "0").isdigit() and int(x["val"]) >= 1 for x in o.extra[1]["rv"]["ops"]))
+                # `truncate(v.len())` keeps everything (the list was checked to be non-empty before)
+                or (o.kind == "call" and (o.name or "").endswith("::len") and o.site is not None and roots(b, o.site.args[0]) & vec_roots)
+                for o in os_)
             if not good:
                 lens_ok = False
                 det.append("line %s: length is %s" % (t.line, [(o.kind, o.name) for o in os_]))
@@ -2897,68 +2959,83 @@ def ts2_writer_fragment_types(P, R, L, rule="TS-2"):
     if len(emits) != 1:
         return R.check(rule, fn + "|anchors", False, where(b), "append emits fragments at exactly one emit_block site", "sites %d" % len(emits))
     emit = emits[0]
-    tyl = roots(b, emit.args[1])
-    # variant assignments feeding the block type argument
-    assigns = {}
-    for bb in range(b.n):
-        if b.is_cleanup(bb):
-            continue
-        for st in b.blocks[bb]["stmts"]:
-            if st["k"] == "assign" and not st["pl"]["p"] and st["pl"]["l"] in tyl and (
-                    st["rv"]["k"] == "aggregate" or (st["rv"]["k"] == "use" and st["rv"]["ops"][0]["k"] == "const")):
-                for v in stored_variants(b, st):
-                    if v:
-                        assigns.setdefault(v, []).append(bb)
-    # flags: bool locals whose switches control those assignments
+
     class _T:
         def __init__(self, bb, ok, err):
             self.bb, self.ok, self.err = bb, ok, err
 
-    def tests_of(l):
+    def variant_assigns(body, target_locals):
+        out = {}
+        for bb in range(body.n):
+            if body.is_cleanup(bb):
+                continue
+            for st in body.blocks[bb]["stmts"]:
+                if st["k"] == "assign" and not st["pl"]["p"] and st["pl"]["l"] in target_locals and (
+                        st["rv"]["k"] == "aggregate" or (st["rv"]["k"] == "use" and st["rv"]["ops"][0]["k"] == "const")):
+                    for v in stored_variants(body, st):
+                        if v:
+                            out.setdefault(v, []).append(bb)
+        return out
+
+    def tests_of(body, l):
         """switches on the bool local, directly or as a field of a tuple built from it (`match (first, last) {..}`)"""
-        out = [_T(t.bb, list(t.ok), list(t.err)) for t in _bt(b, l)]
-        for bb in range(b.n):
-            for st in b.blocks[bb]["stmts"]:
+        out = [_T(t.bb, list(t.ok), list(t.err)) for t in _bt(body, l)]
+        for bb in range(body.n):
+            for st in body.blocks[bb]["stmts"]:
                 if st["k"] == "assign" and st["rv"]["k"] == "aggregate" and st["rv"].get("ak") == "tuple" and not st["pl"]["p"]:
-                    for i, op in enumerate(st["rv"]["ops"]):
-                        if op["k"] in ("copy", "move") and not op["pl"]["p"] and (op["pl"]["l"] == l or l in roots(b, op)) and b.local_ty(op["pl"]["l"]) == "bool":
+                    for i_, op in enumerate(st["rv"]["ops"]):
+                        if op["k"] in ("copy", "move") and not op["pl"]["p"] and (op["pl"]["l"] == l or l in roots(body, op)) and body.local_ty(op["pl"]["l"]) == "bool":
                             tl = st["pl"]["l"]
-                            for sb in range(b.n):
-                                t = b.term(sb)
+                            for sb in range(body.n):
+                                t = body.term(sb)
                                 if t["k"] == "switch" and t["discr"]["k"] in ("copy", "move") and t["discr"]["pl"]["l"] == tl:
                                     pr = t["discr"]["pl"]["p"]
-                                    if len(pr) == 1 and isinstance(pr[0], dict) and str(pr[0].get("f")) == str(i):
+                                    if len(pr) == 1 and isinstance(pr[0], dict) and str(pr[0].get("f")) == str(i_):
                                         fl = [tg for v, tg in t["targets"] if int(v) == 0]
                                         tr = [tg for v, tg in t["targets"] if int(v) != 0] + ([t["otherwise"]] if t.get("otherwise") is not None else [])
                                         out.append(_T(sb, tr, fl))
         return out
+    # the two flags of append, by how they are defined: `first` is only ever assigned constants, `last` is one equality
     first, last = [], []
     for l in range(len(b.locals)):
         if b.local_ty(l) != "bool" or b.local_name(l) is None:
             continue
-        ts_ = tests_of(l)
-        if not ts_ or not any(any(not b.must_pass(x, through_edges=[(t.bb, y) for y in t.ok]) or not b.must_pass(x, through_edges=[(t.bb, y) for y in t.err])
-                                  for x in sum(assigns.values(), [])) for t in ts_):
-            continue
         defs = [d for d in b.defs().get(l, []) if d[0] == "stmt"]
-        if defs and all(d[3]["rv"]["k"] == "use" and d[3]["rv"]["ops"][0]["k"] == "const" for d in defs):
+        if len(defs) >= 2 and all(d[3]["rv"]["k"] == "use" and d[3]["rv"]["ops"][0]["k"] == "const" for d in defs):
             first.append(l)
-        elif len(defs) == 1 and defs[0][3]["rv"]["k"] == "binop" and defs[0][3]["rv"]["op"] == "Eq":
+        elif len(defs) == 1 and defs[0][3]["rv"]["k"] == "binop" and defs[0][3]["rv"]["op"] == "Eq" and not b.defs().get(l, [])[1:]:
             last.append(l)
-    if len(first) != 1 or len(last) != 1 or set(assigns) != {"Full", "First", "Middle", "Last"}:
+    # where is the type decided: in append itself, or in a local helper that receives the two flags
+    D, assigns = b, variant_assigns(b, roots(b, emit.args[1]))
+    Fd, Ld = (first[0] if len(first) == 1 else None), (last[0] if len(last) == 1 else None)
+    if not assigns and Fd is not None and Ld is not None:
+        for o in origins(b, emit.args[1]):
+            if o.kind == "call" and o.site is not None and o.site.t.get("resolved") in P.bodies and not o.site.t.get("dyn"):
+                H = P.bodies[o.site.t["resolved"]]
+                pf = [i_ + 1 for i_, a in enumerate(o.site.args) if a["k"] in ("copy", "move") and Fd in roots(b, a)]
+                pl = [i_ + 1 for i_, a in enumerate(o.site.args) if a["k"] in ("copy", "move") and Ld in roots(b, a)]
+                if len(pf) == 1 and len(pl) == 1 and pf != pl:
+                    R.analysed(H)
+                    tl_ = {0}
+                    for bb in range(H.n):
+                        for st in H.blocks[bb]["stmts"]:
+                            if st["k"] == "assign" and st["pl"]["l"] == 0 and st["rv"]["k"] == "use" and st["rv"]["ops"][0]["k"] in ("copy", "move"):
+                                tl_ |= roots(H, st["rv"]["ops"][0])
+                    D, assigns, Fd, Ld = H, variant_assigns(H, tl_), pf[0], pl[0]
+    if Fd is None or Ld is None or set(assigns) != {"Full", "First", "Middle", "Last"}:
         return R.check(rule, fn + "|anchors", False, where(b), "one const-assigned `first` flag, one `last` flag defined by an equality, four fragment types",
                        "first %s last %s variants %s" % (first, last, sorted(assigns)))
     F, Lf = first[0], last[0]
-    f_true = [(t.bb, y) for t in tests_of(F) for y in t.ok]
-    f_false = [(t.bb, y) for t in tests_of(F) for y in t.err]
-    l_true = [(t.bb, y) for t in tests_of(Lf) for y in t.ok]
-    l_false = [(t.bb, y) for t in tests_of(Lf) for y in t.err]
+    f_true = [(t.bb, y) for t in tests_of(D, Fd) for y in t.ok]
+    f_false = [(t.bb, y) for t in tests_of(D, Fd) for y in t.err]
+    l_true = [(t.bb, y) for t in tests_of(D, Ld) for y in t.ok]
+    l_false = [(t.bb, y) for t in tests_of(D, Ld) for y in t.err]
     want = {"Full": (f_true, l_true), "First": (f_true, l_false), "Last": (f_false, l_true), "Middle": (f_false, l_false)}
     for v, (fe, le) in sorted(want.items()):
-        ok = all(b.must_pass_fs(x, through_edges=fe) and b.must_pass_fs(x, through_edges=le) for x in assigns[v])
-        R.check(rule, fn + "|type-%s" % v, ok, where(b),
+        ok = bool(fe) and bool(le) and all(D.must_pass_fs(x, through_edges=fe) and D.must_pass_fs(x, through_edges=le) for x in assigns[v])
+        R.check(rule, fn + "|type-%s" % v, ok, where(D),
                 "%s is chosen exactly when first=%s and last=%s" % (v, v in ("Full", "First"), v in ("Full", "Last")),
-                "assigned in bb%s" % assigns[v])
+                "assigned in %s bb%s" % (D.path.rsplit("::", 1)[1], assigns[v]))
     # first flag cleared after every emitted fragment
     clears = [bb for bb in range(b.n) if not b.is_cleanup(bb) for st in b.blocks[bb]["stmts"]
               if st["k"] == "assign" and not st["pl"]["p"] and st["pl"]["l"] == F and st["rv"]["k"] == "use"
@@ -3622,10 +3699,30 @@ def pair13_block_indexed(P, R, L, rule="PAIR-13"):
             continue
         R.analysed(b)
         fl = [c for c in b.calls() if not b.is_cleanup(c.bb) and c.name == FLUSHB]
+
+        def helper_handle_param(path):
+            """k if the local helper `path` unconditionally adds an index entry whose handle is its k-th parameter"""
+            h = P.bodies.get(path)
+            if h is None:
+                return None
+            for c in h.calls():
+                if not h.is_cleanup(c.bb) and c.name == BADD and any("index_block_builder" in o.path for o in origins(h, c.args[0])) \
+                        and all(h.must_pass(r, through_nodes=[c.bb]) for r in h.return_blocks()):
+                    ps = {o.name for o in origins(h, c.args[2]) if o.kind == "param"}
+                    if len(ps) == 1:
+                        R.analysed(h)
+                        return ps.pop()
+            return None
         for f_ in fl:
             n += 1
+            from_flush = lambda op: any(o.kind == "call" and o.site is not None and o.site.bb == f_.bb for o in origins(b, op))
             idx = [c for c in b.calls() if not b.is_cleanup(c.bb) and c.name == BADD and any("index_block_builder" in o.path for o in origins(b, c.args[0]))
-                   and any(o.kind == "call" and o.site is not None and o.site.bb == f_.bb for o in origins(b, c.args[2]))]
+                   and from_flush(c.args[2])]
+            for c in b.calls():
+                if not b.is_cleanup(c.bb) and c.t.get("local") and not c.t.get("dyn") and c.t.get("resolved") in P.bodies and c.name != BADD:
+                    k = helper_handle_param(c.t["resolved"])
+                    if k is not None and k - 1 < len(c.args) and from_flush(c.args[k - 1]):
+                        idx.append(c)
             # Some-edges of the unwrapped flush result
             some = []
             for l in range(len(b.locals)):
